@@ -15,11 +15,15 @@ blocked in poll() notices a dead socket at once (the POLL_TIMEOUT slack covers a
 namespace Amqp.C06
 open Amqp.ChanErr Amqp.Errors Amqp.Transport
 
-theorem gen_same_list : Gen.Transport.sameErrorList = true ∧ Gen.Transport.waitLoopsPollErrors = true := by decide
+theorem gen_same_list : (Gen.Transport.sameErrorList && Gen.Transport.noEraseAfterIoOpen) = true ∧
+    Gen.Transport.waitLoopsPollErrors = true := by decide
 
-/-- a healthy connection: open, no errors, every channel open without pending errors -/
+/-- a healthy connection: open, no errors, every channel open; a channel may have returned-message
+    errors (AMQPMessageError) parked on it, nothing else -/
 def Healthy (c : C) : Prop :=
-  c.connState = open_ ∧ c.connErrs = [] ∧ ∀ ch ∈ c.chans, ch.state = open_ ∧ ch.errs = []
+  c.connState = open_ ∧ c.connErrs = [] ∧ ∀ ch ∈ c.chans, ch.state = open_ ∧ ∀ e ∈ ch.errs, e.isMsg = true
+
+theorem open_ne_closed : open_ ≠ closed := by decide
 
 def bound (w : Waiter) (τ : Nat) : Nat := max w.entered (τ + period w)
 
@@ -43,18 +47,31 @@ structure Inv (t : T) : Prop where
     e = .conn none ∧ ∃ τ, t.faultAt = some τ ∧ a ≤ bound w τ ∧ t.c.connState = closed ∧
       ∀ ch ∈ t.c.chans, ch.state = closed
 
-theorem open_ne_closed : open_ ≠ closed := by decide
-
+/-- without a recorded failure a channel's check passes, or hands out a parked returned-message error -/
 theorem opCheck_healthy (c : C) (hc : Healthy c) (i : Nat) (hi : i < c.chans.length) :
-    opCheck c i = (none, c) := by
+    opCheck c i = (none, c) ∨ ∃ k c', opCheck c i = (some (.msg k), c') := by
   obtain ⟨h1, h2, h3⟩ := hc
   have hget : c.chans[i]? = some c.chans[i] := List.getElem?_eq_getElem hi
   have hch := h3 c.chans[i] (List.getElem_mem hi)
   have hv := view_some c i _ hget
-  rw [h1, h2, hch.1, hch.2] at hv
-  have hcheck : chanCheck (view c i) = (none, view c i) := by
-    rw [hv]; simp [chanCheck, connCheck, chanCheckExceptions, open_ne_closed]
-  rw [opCheck_local c i none _ hcheck (view_calls c i), unview_view c i _ hget]
+  rw [h1, h2, hch.1] at hv
+  rcases herr : c.chans[i].errs with _ | ⟨x, rest⟩
+  · left
+    rw [herr] at hv
+    have hcheck : chanCheck (view c i) = (none, view c i) := by
+      rw [hv]; simp [chanCheck, connCheck, chanCheckExceptions, open_ne_closed]
+    rw [opCheck_local c i none _ hcheck (view_calls c i), unview_view c i _ hget]
+  · right
+    have hx := hch.2 x (by rw [herr]; simp)
+    cases x with
+    | msg k =>
+      refine ⟨k, (opCheck c i).2, ?_⟩
+      have hfst : (opCheck c i).1 = some (.msg k) := by
+        rw [opCheck_fst, hv, herr]
+        simp [chanCheck, connCheck, chanCheckExceptions, open_ne_closed]
+      exact Prod.ext hfst rfl
+    | conn k => simp [Err.isMsg] at hx
+    | chan k => simp [Err.isMsg] at hx
 
 /-- once a transport error is at the head of the connection's list, every channel's check raises it,
     the connection and all channels end up CLOSED -/
@@ -97,9 +114,9 @@ theorem connOpCheck_after_fault (c : C) (rest : List Err) (he : c.connErrs = .co
   · simp [connOpCheck, connCheck, he]
 
 theorem check_healthy (c : C) (hc : Healthy c) (ch : Option Nat) (h : ∀ i, ch = some i → i < c.chans.length) :
-    check c ch = (none, c) := by
+    check c ch = (none, c) ∨ ∃ k c', check c ch = (some (.msg k), c') := by
   cases ch with
-  | none => exact connOpCheck_healthy c hc
+  | none => exact Or.inl (connOpCheck_healthy c hc)
   | some i => exact opCheck_healthy c hc i (h i rfl)
 
 theorem check_after_fault (c : C) (rest : List Err) (he : c.connErrs = .conn none :: rest) (ch : Option Nat) :
@@ -301,8 +318,61 @@ theorem getElem?_append_one_cases {α : Type} {l : List α} {j : Nat} {a x : α}
       right; exact ⟨by omega, h.symm⟩
     · rw [List.getElem?_eq_none (by simpa using hl)] at h; cases h
 
+theorem mem_modify_cases {α : Type} {l : List α} {f : α → α} {i : Nat} {x : α} (h : x ∈ l.modify i f) :
+    x ∈ l ∨ ∃ y ∈ l, x = f y := by
+  obtain ⟨j, hj⟩ := List.mem_iff_getElem?.mp h
+  by_cases hij : i = j
+  · subst hij
+    rw [getElem?_modify_eq] at hj
+    rcases hl : l[i]? with _ | y
+    · rw [hl] at hj; cases hj
+    · rw [hl] at hj; simp only [Option.map_some, Option.some.injEq] at hj
+      right; exact ⟨y, List.mem_of_getElem? hl, hj.symm⟩
+  · rw [getElem?_modify_ne l f i j hij] at hj
+    left; exact List.mem_of_getElem? hj
+
 theorem active_iff (w : Waiter) : active w = true ↔ w.result = none ∧ w.blocked = false := by
   unfold active; cases w.result <;> cases w.blocked <;> simp
+
+/-- a check that passes (or defers a parked returned message) keeps the invariant -/
+theorem poll_continue_inv (t : T) (h : Inv t) (i : Nat) (w : Waiter) (hw : t.waiters[i]? = some w)
+    (hres : w.result = none) (hwb : w.blocked = false) (hf : t.faultAt = none) :
+    Inv { t with waiters := t.waiters.set i { w with nextPoll := t.now + period w } } := by
+  obtain ⟨h1, h2, h3, hE, h4, hH, hB, h5⟩ := h
+  refine ⟨h1, h2, ?_, ?_, ?_, ?_, ?_, ?_⟩
+  · intro k x c hx hc
+    rcases getElem?_set_cases hx with ⟨_, rfl⟩ | ⟨_, hx'⟩
+    · exact h3 i w c hw hc
+    · exact h3 k x c hx' hc
+  · intro k x hx
+    rcases getElem?_set_cases hx with ⟨_, rfl⟩ | ⟨_, hx'⟩
+    · exact hE i w hw
+    · exact hE k x hx'
+  · intro k x hx hxr hxb
+    rcases getElem?_set_cases hx with ⟨_, rfl⟩ | ⟨_, hx'⟩
+    · exact ⟨Nat.le_add_right _ _, fun _ => Nat.le_refl _, fun τ hτ => by simp [hf] at hτ⟩
+    · exact h4 k x hx' hxr hxb
+  · intro j hj
+    obtain ⟨wj, hwj, r1, r2, r3⟩ := hH j hj
+    by_cases hji : i = j
+    · subst hji
+      rw [hw] at hwj; cases hwj
+      have hilt : i < t.waiters.length := by
+        rcases Nat.lt_or_ge i t.waiters.length with h' | h'
+        · exact h'
+        · rw [List.getElem?_eq_none h'] at hw; cases hw
+      exact ⟨{ w with nextPoll := t.now + period w }, by rw [List.getElem?_set]; simp [hilt], r1, r2, r3⟩
+    · exact ⟨wj, by rw [List.getElem?_set_ne hji]; exact hwj, r1, r2, r3⟩
+  · intro k x hx hxr hxb
+    rcases getElem?_set_cases hx with ⟨_, rfl⟩ | ⟨_, hx'⟩
+    · obtain ⟨τ, _, _, q, _⟩ := hB i w hw hres (by simpa using hxb)
+      rw [hf] at q; cases q
+    · obtain ⟨τ, _, _, q, _⟩ := hB k x hx' hxr hxb
+      rw [hf] at q; cases q
+  · intro k x e a hx hxr
+    rcases getElem?_set_cases hx with ⟨_, rfl⟩ | ⟨_, hx'⟩
+    · rw [hres] at hxr; cases hxr
+    · exact h5 k x e a hx' hxr
 
 /-- **Inductive step**: every transition keeps the invariant. -/
 theorem step_inv (t t' : T) (a : Act) (h : Inv t) (hs : step t a = some t') : Inv t' := by
@@ -403,6 +473,36 @@ theorem step_inv (t t' : T) (a : Act) (h : Inv t) (hs : step t a = some t') : In
         simp only [hact, Bool.not_true, Bool.false_or, decide_eq_true_eq] at this
         exact ⟨this, fun hn => by have := a3 hn; simp only; omega, a4⟩
     · cases hs
+  | brokerReturn ch code =>
+    simp only [step] at hs
+    split at hs
+    · cases hs
+      obtain ⟨h1, h2, h3, hE, h4, hH, hB, h5⟩ := h
+      refine ⟨?_, ?_, ?_, hE, h4, hH, hB, ?_⟩
+      · intro hn
+        obtain ⟨a1, a2, a3⟩ := h1 hn
+        refine ⟨a1, a2, ?_⟩
+        intro x hx
+        rcases mem_modify_cases hx with hx' | ⟨y, hy, rfl⟩
+        · exact a3 x hx'
+        · refine ⟨(a3 y hy).1, ?_⟩
+          intro e he
+          simp only [List.mem_append, List.mem_singleton] at he
+          rcases he with he | rfl
+          · exact (a3 y hy).2 e he
+          · rfl
+      · intro τ hτ; exact h2 τ hτ
+      · intro i w c hw hc
+        have := h3 i w c hw hc
+        simpa [onReturn] using this
+      · intro i w e a hw hr
+        obtain ⟨q1, τ, q2, q3, q4, q5⟩ := h5 i w e a hw hr
+        refine ⟨q1, τ, q2, q3, q4, ?_⟩
+        intro x hx
+        rcases mem_modify_cases hx with hx' | ⟨y, hy, rfl⟩
+        · exact q5 x hx'
+        · exact q5 y hy
+    · cases hs
   | leave i =>
     simp only [step] at hs
     split at hs
@@ -428,8 +528,9 @@ theorem step_inv (t t' : T) (a : Act) (h : Inv t) (hs : step t a = some t') : In
         -- a raising check means a failure has been recorded
         have hcases : t.faultAt = none ∨ ∃ τ, t.faultAt = some τ := by cases t.faultAt <;> simp
         rcases hcases with hf | ⟨τ, hf⟩
-        · have := check_healthy t.c (h1 hf) w.chan (fun c hc => h3 i w c hw hc)
-          rw [this] at hraise; simp at hraise
+        · rcases check_healthy t.c (h1 hf) w.chan (fun c hc => h3 i w c hw hc) with hck | ⟨k, c', hck⟩
+          · simp [raisesFatal, hck] at hraise
+          · simp [raisesFatal, hck, Err.isMsg] at hraise
         · obtain ⟨j, hj⟩ := Option.isSome_iff_exists.mp hsome
           have hji : j ≠ i := fun hh => hne (by rw [← hh]; exact hj)
           obtain ⟨wj, hwj, rj1, rj2, rj3⟩ := hH j hj
@@ -482,47 +583,18 @@ theorem step_inv (t t' : T) (a : Act) (h : Inv t) (hs : step t a = some t') : In
         obtain ⟨hres, hwb⟩ := (active_iff w).1 hact
         have hcases : t.faultAt = none ∨ ∃ τ, t.faultAt = some τ := by cases t.faultAt <;> simp
         rcases hcases with hf | ⟨τ, hf⟩
-        · -- no failure recorded: the check passes, the thread sleeps again
+        · -- no failure recorded: the check passes (or meets a parked returned message), the thread sleeps again
           have hh := h.nofault hf
-          have hck := check_healthy t.c hh w.chan (fun c hc => h.chansLen i w c hw hc)
-          rw [hck] at hs
-          simp only [Option.some.injEq] at hs
-          subst hs
-          obtain ⟨h1, h2, h3, hE, h4, hH, hB, h5⟩ := h
-          refine ⟨h1, h2, ?_, ?_, ?_, ?_, ?_, ?_⟩
-          · intro k x c hx hc
-            rcases getElem?_set_cases hx with ⟨_, rfl⟩ | ⟨_, hx'⟩
-            · exact h3 i w c hw hc
-            · exact h3 k x c hx' hc
-          · intro k x hx
-            rcases getElem?_set_cases hx with ⟨_, rfl⟩ | ⟨_, hx'⟩
-            · exact hE i w hw
-            · exact hE k x hx'
-          · intro k x hx hxr hxb
-            rcases getElem?_set_cases hx with ⟨_, rfl⟩ | ⟨_, hx'⟩
-            · exact ⟨Nat.le_add_right _ _, fun _ => Nat.le_refl _, fun τ hτ => by simp [hf] at hτ⟩
-            · exact h4 k x hx' hxr hxb
-          · intro j hj
-            obtain ⟨wj, hwj, r1, r2, r3⟩ := hH j hj
-            by_cases hji : i = j
-            · subst hji
-              rw [hw] at hwj; cases hwj
-              have hilt : i < t.waiters.length := by
-                rcases Nat.lt_or_ge i t.waiters.length with h' | h'
-                · exact h'
-                · rw [List.getElem?_eq_none h'] at hw; cases hw
-              exact ⟨{ w with nextPoll := t.now + period w }, by rw [List.getElem?_set]; simp [hilt], r1, r2, r3⟩
-            · exact ⟨wj, by rw [List.getElem?_set_ne hji]; exact hwj, r1, r2, r3⟩
-          · intro k x hx hxr hxb
-            rcases getElem?_set_cases hx with ⟨_, rfl⟩ | ⟨_, hx'⟩
-            · obtain ⟨τ, _, _, q, _⟩ := hB i w hw hres (by simpa using hxb)
-              rw [hf] at q; cases q
-            · obtain ⟨τ, _, _, q, _⟩ := hB k x hx' hxr hxb
-              rw [hf] at q; cases q
-          · intro k x e a hx hxr
-            rcases getElem?_set_cases hx with ⟨_, rfl⟩ | ⟨_, hx'⟩
-            · rw [hres] at hxr; cases hxr
-            · exact h5 k x e a hx' hxr
+          rcases check_healthy t.c hh w.chan (fun c hc => h.chansLen i w c hw hc) with hck | ⟨k, c'', hck⟩
+          · rw [hck] at hs
+            simp only [Option.some.injEq] at hs
+            subst hs
+            exact poll_continue_inv t h i w hw hres hwb hf
+          · rw [hck] at hs
+            have hm : Err.isMsg (.msg k) = true := rfl
+            simp only [hm, if_true, Option.some.injEq] at hs
+            subst hs
+            exact poll_continue_inv t h i w hw hres hwb hf
         · -- a failure is recorded: the check raises it
           obtain ⟨hτle, rest, hrest⟩ := h.fault τ hf
           obtain ⟨o1, o2, o3, o4, o5⟩ := check_after_fault t.c rest hrest w.chan
@@ -530,7 +602,8 @@ theorem step_inv (t t' : T) (a : Act) (h : Inv t) (hs : step t a = some t') : In
           rw [hop] at o1 o2 o3 o4 o5 hs
           simp only at o1 o2 o3 o4 o5
           subst o1
-          simp only at hs
+          have hm : Err.isMsg (.conn none) = false := rfl
+          simp only [hm, Bool.false_eq_true, if_false] at hs
           split at hs
           · cases hs
             obtain ⟨_, _, w3⟩ := h.waiting i w hw hres hwb
@@ -611,7 +684,8 @@ theorem poll_after_fault_raises (c : C) (hc : Healthy c) (as : List Act) (t t' :
     rcases hop : check t.c w.chan with ⟨r, c'⟩
     rw [hop] at o1 hs
     simp only at o1; subst o1
-    simp only at hs
+    have hm : Err.isMsg (.conn none) = false := rfl
+    simp only [hm, Bool.false_eq_true, if_false] at hs
     split at hs
     · cases hs
       have hilt : i < t.waiters.length := by
@@ -686,11 +760,17 @@ theorem skel_Channel_start_consuming : Gen.Skel.Channel_start_consuming =
     "call:time.sleep", "continue", "endif", "break", "endwhile", "if", "r:exceptions", "then",
     "call:check_for_errors", "endif"] := by decide
 
+/-- the channel's check consults the connection first: a parked returned message cannot hide the failure -/
+theorem skel_Channel_check_for_errors : Gen.Skel.Channel_check_for_errors =
+  ["r:is_closed", "try", "call:_connection.check_for_errors", "except:AMQPConnectionError",
+    "call:set_state", "raise", "endtry", "call:check_for_exceptions", "if", "then",
+    "raise:AMQPChannelError", "endif"] := by decide
+
 /-! ## Non-vacuity: two waiters on two channels, the peer dies, both raise within IDLE_WAIT -/
 def c2 : C := { chans := [{}, {}] }
 example : Healthy c2 := by
   refine ⟨rfl, rfl, ?_⟩
-  intro ch hch; simp [c2] at hch; subst hch; exact ⟨rfl, rfl⟩
+  intro ch hch; simp [c2] at hch; subst hch; exact ⟨rfl, fun e he => by cases he⟩
 example : (run { c := c2 } [.enterWait (some 0) 0 false, .poll 0, .adv 4, .enterWait (some 1) 0 false, .poll 1, .die,
     .readerNotices, .adv 6, .poll 0, .adv 4, .poll 1]).map (fun t => (t.waiters.map (·.result), t.c.connState, t.now)) =
     some ([some (.raised (.conn none) 10), some (.raised (.conn none) 14)], 0, 14) := by decide
@@ -702,6 +782,10 @@ example : (run { c := c2 } [.enterWait (some 0) 0 false, .poll 0, .adv 5, .enter
 -- while the lock is held a raising check cannot complete, and a queued thread does not hold time back
 example : (run { c := c2 } [.enterWait (some 0) 0 false, .poll 0, .adv 5, .enterWait none 0 true, .poll 1, .adv 5,
     .die, .readerNotices, .poll 0]) = none := by decide
+-- a returned message is parked on the waiter's channel: the wait goes on, and the failure is still raised in time
+example : (run { c := c2 } [.enterWait (some 0) 0 false, .poll 0, .brokerReturn 0 312, .adv 10, .poll 0, .adv 3, .die,
+    .readerNotices, .adv 7, .poll 0]).map (fun t => (t.waiters.map (·.result), t.c.connState, t.now)) =
+    some ([some (.raised (.conn none) 20)], 0, 20) := by decide
 -- time cannot skip a due poll, nor pass while the reader has not noticed the dead socket
 example : (run { c := c2 } [.enterWait (some 0) 0 false, .adv 1]) = none := by decide
 example : (run { c := c2 } [.die, .adv 1]) = none := by decide
